@@ -27,16 +27,30 @@
 //   - a write whose root is a local that only ever holds memory allocated in the same
 //     function (composite literal, &composite literal, new, make, zero declaration, result of
 //     a function that returns such memory) is construction, not mutation;
-//   - otherwise the write is charged to the package-level var at the root (always), to the
-//     struct fields selected right after a crossing or used as the operand of a crossing
-//     (T.f for s.f = v, s.f[i] = v, s.f.g = v with f a pointer, *s.f = v ...) and to whatever
-//     the root local aliases (vs := s.vs; vs[i] = v is a write of T.vs; done := g[:k] too);
-//   - address-taking, pointer-receiver method calls on addressable operands, channel
-//     operations, delete/copy/clear count as writes of their operand;
+//   - otherwise the write is charged to the package-level var at the root (always) and to ONE
+//     struct field: the first field at or after the last crossing (T.f for s.f = v, s.f.x = v
+//     with f a struct value, Child.x for s.child.x = v with child a pointer), or, when an element
+//     or pointee is written (s.f[i] = v, *s.f = v), the field holding the reference (T.f) - and
+//     then also whatever the root local aliases (vs := s.vs; vs[i] = v is a write of T.vs;
+//     done := g[:k]; done[i] = v a write of g);
+//   - address-taking, pointer-receiver method calls of other modules on addressable operands
+//     (s.mu.Lock(), pool.Get()), methods of external interfaces, channel operations,
+//     delete/copy/clear count as writes of their operand;
 //   - a reference handed to a callee is followed: in-module static callees by a per-parameter
 //     "written-through" summary (fixpoint), external callees are assumed to write through it
 //     unless they belong to a short list of pure packages; results of in-module callees carry
-//     the aliases of what the callee returns.
+//     the aliases of what the callee returns;
+//   - what an INTERNAL helper (unexported, only ever called statically, not a method of a module
+//     interface) writes through a parameter is charged where it is called, and not at all where
+//     the caller hands it memory it allocated itself: extracting a helper out of a constructor,
+//     or out of a function that fills a local, does not change the inventory;
+//   - the writers recorded for a piece of state are the NEAREST entry points (exported names,
+//     init, functions nothing refers to) from which a writing function is reachable through
+//     static references: new users of an exported mutator do not change the inventory.
+//
+// Not seen (limits): state hidden in closures stored in existing function-typed fields or
+// variables, writes through reflect/unsafe, state of other modules, a write to shared memory
+// reached only through an object the writer built itself (x := &T{m: shared}; x.m[k] = v).
 package stategen
 
 import (
@@ -139,16 +153,15 @@ type callArg struct {
 }
 
 type fnInfo struct {
-	name    string
-	obj     *types.Func // nil for the package initialiser pseudo function
-	pkg     *packages.Package
-	bodies  []ast.Node
-	params  map[*types.Var]int
-	nparams int
-	entry   bool
-	events  map[event]bool
-	args    []callArg
-	uses    map[*types.Func]bool
+	name   string
+	obj    *types.Func // nil for the package initialiser pseudo function
+	pkg    *packages.Package
+	bodies []ast.Node
+	params map[*types.Var]int
+	entry  bool
+	events map[event]bool
+	args   []callArg
+	uses   map[*types.Func]bool
 	// an internal helper (unexported, only ever called statically, not an interface method): what it
 	// writes through a parameter is charged where it is called, and not at all when the caller hands
 	// it memory the caller allocated itself (so that extracting a helper out of a constructor, or out
@@ -507,7 +520,7 @@ func (a *analyser) writeTo(fi *fnInfo, e ast.Expr, how string) {
 	}
 }
 
-// writeThrough records a write through the reference value e (pointer, slice, map, channel).
+// throughKeys: what a write through the reference value e (pointer, slice, map, channel) is charged to.
 func (a *analyser) throughKeys(fi *fnInfo, e ast.Expr) []string {
 	st := append(a.steps(fi, e), step{kind: "deref", crossing: true})
 	return a.rootsOf(fi, st)
@@ -545,7 +558,7 @@ func (a *analyser) addDeferred(fi *fnInfo, i int, key, how string) {
 	if fi.deferred[i] == nil {
 		fi.deferred[i] = map[string]string{}
 	}
-	if _, ok := fi.deferred[i][key]; !ok {
+	if old, ok := fi.deferred[i][key]; !ok || how < old { // the smallest description: independent of the order of visits
 		fi.deferred[i][key] = how
 		a.changed = true
 	}
@@ -1167,14 +1180,20 @@ func Analyse(repo string) (*Inventory, error) {
 	}
 	var errs []string
 	var roots []*packages.Package
-	for _, p := range pkgs {
+	// the packages named by Patterns and every package of the module they import (a new internal
+	// package holding state is part of the inventory; the expected side treats a package it does
+	// not know as in scope of every property)
+	packages.Visit(pkgs, nil, func(p *packages.Package) {
+		if !inMod(p.PkgPath) {
+			return
+		}
 		for _, e := range p.Errors {
 			errs = append(errs, e.Error())
 		}
-		if inMod(p.PkgPath) {
+		if p.Types != nil && p.TypesInfo != nil && len(p.Syntax) > 0 {
 			roots = append(roots, p)
 		}
-	}
+	})
 	if len(errs) > 0 {
 		return nil, fmt.Errorf("stategen: the source tree does not type-check: %s", strings.Join(errs, "; "))
 	}
@@ -1187,9 +1206,10 @@ func Analyse(repo string) (*Inventory, error) {
 
 	// (b) struct types and field owners; (a) package-level vars
 	type gv struct {
-		v    *types.Var
-		init bool
-		file string
+		v       *types.Var
+		init    bool
+		file    string
+		closure bool // function-typed and initialised by an expression that contains a function literal
 	}
 	var globals []gv
 	structIdx := map[string]int{}
@@ -1227,7 +1247,18 @@ func Analyse(repo string) (*Inventory, error) {
 							continue
 						}
 						if v, ok := p.TypesInfo.Defs[id].(*types.Var); ok {
-							globals = append(globals, gv{v, len(vs.Values) > 0, relFile(p, id.Pos(), repo)})
+							cl := false
+							if _, isFn := v.Type().Underlying().(*types.Signature); isFn {
+								for _, val := range vs.Values {
+									ast.Inspect(val, func(n ast.Node) bool {
+										if _, ok := n.(*ast.FuncLit); ok {
+											cl = true
+										}
+										return true
+									})
+								}
+							}
+							globals = append(globals, gv{v, len(vs.Values) > 0, relFile(p, id.Pos(), repo), cl})
 						}
 					}
 				}
@@ -1289,7 +1320,6 @@ func Analyse(repo string) (*Inventory, error) {
 			for i := 0; i < sig.Params().Len(); i++ {
 				fi.params[sig.Params().At(i)] = k + i
 			}
-			fi.nparams = k + sig.Params().Len()
 			for v, i := range fi.params {
 				fi.alias[v] = map[string]bool{fmt.Sprintf("p:%d", i): true}
 				fi.nonFresh[v] = true
@@ -1517,6 +1547,13 @@ func Analyse(repo string) (*Inventory, error) {
 			v.Mutated = true
 			v.Writers = setList(w)
 			v.How = setList(hows[k])
+		}
+		if g.closure {
+			// a function value built by a function literal may carry captured variables from call to call
+			v.Mutated = true
+			v.Writers = append(v.Writers, v.Pkg+".init")
+			sort.Strings(v.Writers)
+			v.How = append(v.How, "closure state")
 		}
 		inv.Vars = append(inv.Vars, v)
 	}
